@@ -488,6 +488,37 @@ pub fn edit_models(rng: &mut Rng, m: &mut Vec<TableDef>, profile: Profile) -> &'
         return "add_table";
     }
     let ti = rng.below(m.len());
+    if rng.chance(1, 14) {
+        // a big step: many columns with their own indexes on one existing table plus new tables in the same plan,
+        // so that the plan has well over 20 actions with CreateTable actions that are not at the front before sorting
+        let n = rng.range(9, 14);
+        for i in 0..n {
+            let cn = format!("c{:02}", i);
+            if m[ti].columns.iter().any(|c| c.name == cn) {
+                continue;
+            }
+            let ty = gen_type(rng, profile);
+            let mut c = col(&cn, ty.clone(), true);
+            c.default = gen_default(rng, &ty, profile);
+            m[ti].columns.push(c);
+            if rng.chance(3, 4) {
+                let u = rng.chance(1, 3);
+                add_key(rng, &mut m[ti], &[cn], u);
+            }
+        }
+        for _ in 0..rng.range(1, 2) {
+            let mut pool: Vec<&str> = TABLE_POOL.to_vec();
+            rng.shuffle(&mut pool);
+            for n in pool {
+                if !m.iter().any(|t| t.name == n) {
+                    let t = gen_table(rng, n, m, profile);
+                    m.push(t);
+                    break;
+                }
+            }
+        }
+        return "big_step";
+    }
     match rng.below(16) {
         0 => {
             // add table
